@@ -41,10 +41,10 @@ RULE = (
 PRISTINE = os.path.join(os.path.dirname(tsites.__file__), "tsites_pristine.json")
 PROPS = os.path.join(core.LEAN_DIR, "OptunaVerif", "Props", "C13.lean")
 
-KNOWN_SITES = {
-    "nsga2": "nsga2-crowding-tie-order",
-    "nsga3": "nsga3-raw-values-in-niching",
-}
+# sites with an OPEN finding, to which an asymmetric paired run may be attributed (by neutralising the site from the
+# harness, verif/direction_k.attribution_patch).  Empty since the repairs of F-C13-1 (NSGA-II crowding tie order) and
+# F-C13-2 (NSGA-III niching): any asymmetric NSGA-II / NSGA-III run is an unattributed violation.
+KNOWN_SITES: dict[str, str] = {}
 
 
 # =============================================================================================
@@ -510,47 +510,128 @@ def run_sites(chk: core.Check, n_exact: int, n_float: int) -> None:
 
 
 def replay_witnesses(chk: core.Check) -> None:
-    """The two negation theorems of Props/C13.lean, replayed on the real code."""
+    """The two formerly asymmetric sites (NSGA-II crowding tie order, NSGA-III niching), after their repairs: correspondence with
+    the model and symmetry on many inputs; the old behaviours' witnesses come first, so that a revert is reported concretely."""
     import numpy as np
     S = Sites()
     drv = core.Driver("direction")
     try:
-        # NSGA-II: front {#0=(0,0), #1=(1,1)} under (minimize, maximize) vs second objective negated under (minimize, minimize)
-        res = []
-        for pop in ([[0, [0.0, 0.0]], [1, [1.0, 1.0]]], [[0, [0.0, 0.0]], [1, [1.0, -1.0]]]):
-            req, real = eval_site(S, "crowdingSort", "max", {"pop": pop, "nObj": 2})
-            model = drv.ask(req)["r"]
-            res.append((model, real))
-        chk.extra["witness_nsga2_crowding"] = {"model": [m for m, _ in res], "code": [c for _, c in res]}
-        if any(m != c for m, c in res):
-            chk.broke("correspondence", {"site": "crowdingSort", "why": "witness of crowding_order_not_symmetric: model %s, code %s" % ([m for m, _ in res], [c for _, c in res])})
-        elif res[0][1] != res[1][1]:
-            chk.violation({"site": KNOWN_SITES["nsga2"], "level": "witness", "attributed": True},
-                          {"kind": "witness", "which": "nsga2"},
-                          "NSGA-II _crowding_distance_sort: front {#0=(0,0), #1=(1,1)} of a (minimize, maximize) study is ordered %s, the same front of "
-                          "the mirrored (minimize, minimize) study [#1=(1,-1)] is ordered %s: boundary individuals tie at distance inf and the tie is broken "
-                          "by the raw order of the last objective" % (res[0][1], res[1][1]))
-        # NSGA-III: the matrix handed to the niching step
+        # NSGA-II `_crowding_distance_sort` (after the repair of F-C13-1): correspondence with the model AND symmetry on
+        # many fronts without per-objective ties, every subset of negated objectives; first the witness front of the
+        # former finding {#0=(0,0), #1=(1,1)}.  `crowding_order_symmetric` is the theorem; `crowdingSortOld` names a revert.
+        rr2 = random.Random(chk.seed * 7919 + 29)
+        fronts: list[tuple[list[list[float]], list[int], list[bool]]] = [([[0.0, 0.0], [1.0, 1.0]], [0, 1], [False, True]),
+                                                                         ([[0.0, 0.0], [1.0, 1.0], [2.0, 2.0]], [0, 1, 2], [False, True])]
+        for _ in range(60 if chk.tier == "quick" else 600):
+            n_obj = rr2.choice([1, 2, 2, 3, 4])
+            n = rr2.randint(2, 8)
+            # every objective spans a width of 1, 2, 4 or 8 on a dyadic grid (both ends present, pairwise-distinct values), so that
+            # gap / width and the sums of the code's float arithmetic are exact and the exact model is the code's model; arbitrary
+            # floats are compared bit for bit with the float instance by verif/props/c15_nsga.py (stages crowd / mirror)
+            cols = []
+            for _i in range(n_obj):
+                w_, lo_ = rr2.choice([1.0, 2.0, 4.0, 8.0]), float(rr2.randint(-8, 8))
+                ks = [0, 16] + rr2.sample(range(1, 16), n - 2)
+                rr2.shuffle(ks)
+                cols.append([lo_ + w_ * k / 16.0 for k in ks])
+            fronts.append(([[cols[i][k] for i in range(n_obj)] for k in range(n)], rr2.sample(range(3 * n), n), [rr2.random() < 0.5 for _ in range(n_obj)]))
+        first2 = True
+        for rows, numbers, mask in fronts:
+            if not any(mask):
+                mask = [True] + mask[1:]
+            n_obj = len(mask)
+            mrows = [[-v if m else v for v, m in zip(r_, mask)] for r_ in rows]
+            res = []
+            for rws in (rows, mrows):
+                pop = [[k, list(v)] for k, v in zip(numbers, rws)]
+                req, real = eval_site(S, "crowdingSort", "max", {"pop": pop, "nObj": n_obj})
+                res.append((drv.ask(req)["r"], real, drv.ask(dict(req, site="crowdingSortOld"))["r"]))
+            chk.count("mirror-site:crowdingSort")
+            chk.case({"site": "crowdingSort", "rows": rows, "numbers": numbers, "mask": mask}, nontrivial=len(rows) >= 2)
+            if first2:
+                chk.extra["witness_nsga2_crowding"] = {"model": [m for m, _, _ in res], "code": [c for _, c, _ in res], "model_before_repair": [o for _, _, o in res]}
+                first2 = False
+            if res[0][1] != res[1][1]:
+                reverted = all(c == o for _, c, o in res)
+                chk.violation({"site": "nsga2-crowding-tie-order", "level": "witness", "attributed": True},
+                              {"kind": "witness", "which": "nsga2", "rows": rows, "numbers": numbers, "mask": mask, "orders": [res[0][1], res[1][1]]},
+                              "NSGA-II _crowding_distance_sort: the front %s (trial numbers %s) is ordered %s, the same front with objectives %s negated (the mirrored "
+                              "study) %s%s" % (rows, numbers, res[0][1], [i for i, m in enumerate(mask) if m], res[1][1],
+                                               ": exactly the orders of the sort before the repair of F-C13-1 (crowdingSortOld: ties of equal distances ordered by the raw last objective)"
+                                               if reverted else ""))
+                break
+            if any(m != c for m, c, _ in res):
+                chk.broke("correspondence", {"site": "crowdingSort", "why": "model %s, code %s (rows %s numbers %s mask %s)" % ([m for m, _, _ in res], [c for _, c, _ in res], rows, numbers, mask)})
+                break
+        # NSGA-III: the matrix handed to the niching step, captured at the real call site (`__call__` run on a population
+        # one larger than population_size so that the niching branch is taken; `_normalize_objective_values` wrapped)
         from optuna.samplers._nsgaiii import _elite_population_selection_strategy as e3
+        from optuna.samplers._lazy_random_state import LazyRandomState
 
-        def shifted(rows: list[list[float]]) -> list[list[float]]:
+        class _Study:
+            def __init__(self, dirs: list[str]) -> None:
+                self.directions = [S.SD.MAXIMIZE if d == "max" else S.SD.MINIMIZE for d in dirs]
+
+        def shifted(rows: list[list[float]], dirs: list[str]) -> tuple[list[int], list[list[float]]]:
             pop = [S.create_trial(state=S.TS.COMPLETE, values=v, params={}, distributions={}) for v in rows]
-            m = e3._filter_inf(pop)
-            m = m - np.min(m, axis=0)
-            return [[float(x) for x in row] for row in m]
+            for i, t in enumerate(pop):
+                t.number = i
+            seen: list[Any] = []
+            used: list[list[int]] = []
+            orig = e3._normalize_objective_values
+            orig_f = e3._filter_inf
 
-        base = [[0.0, 1.0], [1.0, 0.0]]
-        a, b = shifted(base), shifted([[-r_[0], r_[1]] for r_ in base])
-        ma = drv.ask({"site": "nsga3Shift", "rows": [[q2s(v) for v in r_] for r_ in base]})["r"]
-        mb = drv.ask({"site": "nsga3Shift", "rows": [[q2s(-r_[0]), q2s(r_[1])] for r_ in base]})["r"]
+            def spy_f(population: Any) -> Any:
+                used.append([t.number for t in population])
+                return orig_f(population)
+
+            def spy(m: Any) -> Any:
+                m = np.array(m, dtype=float)
+                seen.append(m - np.min(m, axis=0))
+                return orig(m)
+
+            e3._normalize_objective_values = spy
+            e3._filter_inf = spy_f
+            try:
+                strat = e3.NSGAIIIElitePopulationSelectionStrategy(population_size=max(2, len(pop) - 1), rng=LazyRandomState(0))
+                strat(_Study(dirs), list(pop))
+            finally:
+                e3._normalize_objective_values = orig
+                e3._filter_inf = orig_f
+            if len(seen) != 1 or len(used) != 1:
+                raise core.DriverBroken("NSGA-III niching branch not reached exactly once (%d, %d)" % (len(seen), len(used)))
+            return used[0], [[float(x) for x in row] for row in seen[0]]
+
         tof = lambda M: [[float(Fraction(x)) for x in row] for row in M]
-        chk.extra["witness_nsga3_shift"] = {"model": [tof(ma), tof(mb)], "code": [a, b]}
-        if tof(ma) != a or tof(mb) != b:
-            chk.broke("correspondence", {"site": "nsga3Shift", "why": "model %s %s / code %s %s" % (ma, mb, a, b)})
-        elif a != b:
-            chk.violation({"site": KNOWN_SITES["nsga3"], "level": "witness", "attributed": True}, {"kind": "witness", "which": "nsga3"},
-                          "NSGA-III niching reads raw objective values: trials (0,1),(1,0) of a (maximize, minimize) study are shifted to %s, the same trials "
-                          "of the mirrored (minimize, minimize) study [(-0,1),(-1,0)] to %s (ideal point = per-column minimum whatever the direction)" % (a, b))
+        rr = random.Random(chk.seed * 7919 + 13)
+        cases3: list[tuple[list[list[float]], list[str]]] = [([[0.0, 1.0], [1.0, 0.0], [0.5, 0.5]], ["max", "min"])]
+        for _ in range(40 if chk.tier == "quick" else 400):
+            n_obj = rr.choice([2, 2, 3, 4])
+            n = rr.randint(3, 7)
+            # mutually non-dominated rows are not required: the last front is whatever the ranking says; distinct lattice values
+            cases3.append(([[float(rr.randint(-6, 6)) / rr.choice([1, 2, 4]) for _ in range(n_obj)] for _ in range(n)],
+                           [rr.choice(["max", "min"]) for _ in range(n_obj)]))
+        first = True
+        for rows, dirs in cases3:
+            mask = [d == "max" for d in dirs]
+            mrows = [[-v if m else v for v, m in zip(r_, mask)] for r_ in rows]
+            (ua, a), (ub, b) = shifted(rows, dirs), shifted(mrows, ["min"] * len(dirs))
+            ma = drv.ask({"site": "nsga3Shift", "dirs": dirs, "rows": [[q2s(v) for v in rows[i]] for i in ua]})["r"]
+            mb = drv.ask({"site": "nsga3Shift", "dirs": ["min"] * len(dirs), "rows": [[q2s(v) for v in mrows[i]] for i in ub]})["r"]
+            chk.count("mirror-site:nsga3Shift")
+            chk.case({"site": "nsga3Shift", "rows": rows, "dirs": dirs}, nontrivial=any(mask) and len(ua) >= 3)
+            if first:
+                chk.extra["witness_nsga3_shift"] = {"model": [tof(ma), tof(mb)], "code": [a, b]}
+                first = False
+            # the model is asked on exactly the rows the code handed to the niching step (elite + last front), in that order
+            if tof(ma) != a or tof(mb) != b:
+                chk.broke("correspondence", {"site": "nsga3Shift", "why": "model %s %s / code %s %s (rows %s dirs %s used %s %s)" % (tof(ma), tof(mb), a, b, rows, dirs, ua, ub)})
+                break
+            if sorted(zip(ua, a)) != sorted(zip(ub, b)):
+                chk.violation({"site": "nsga3-raw-values-in-niching", "level": "witness", "attributed": True}, {"kind": "witness", "which": "nsga3", "rows": rows, "dirs": dirs},
+                              "NSGA-III niching: trials %s of a %s study reach the niching step as %s, the same trials of the mirrored all-minimise study %s as %s "
+                              "(the ideal point must be taken on the direction-normalised values)" % (rows, dirs, a, mrows, b))
+                break
     finally:
         drv.close()
 
